@@ -23,7 +23,7 @@ import numpy as np
 
 from cirq import circuits, linalg, ops, protocols
 from cirq.linalg import predicates
-from cirq.linalg.decompositions import extract_right_diag, num_cnots_required
+from cirq.linalg.decompositions import extract_right_diag
 from cirq.transformers.analytical_decompositions import single_qubit_decompositions
 from cirq.transformers.eject_phased_paulis import eject_phased_paulis
 from cirq.transformers.eject_z import eject_z
@@ -115,7 +115,7 @@ def two_qubit_matrix_to_diagonal_and_cz_operations(
     if predicates.is_diagonal(mat, atol=atol):
         return mat, []
 
-    if num_cnots_required(mat) == 3:
+    if abs(linalg.kak_decomposition(mat, atol=atol).interaction_coefficients[2]) >= atol:
         right_diag = extract_right_diag(mat)
         two_cnot_unitary = mat @ right_diag
         # note that this implies that two_cnot_unitary @ d = mat
